@@ -23,7 +23,7 @@ def fnv30(b):
 
 def mod_entry(cl):
     std = cl["std"]
-    if b"verification failed" in std["stderr"]:
+    if cl.get("template", "").startswith("hostile:") or b"verification failed" in std["stderr"]:
         cls = "hostile"
     elif b"invalid .nvm format" in std["stderr"] or b"Failed to load" in std["stderr"]:
         cls = "junk"
@@ -51,15 +51,18 @@ def record(ctx, bench, rounds, tag, yield_seed, cli_share=0.5):
                         env=ctx.env(), log=os.path.join(work, "daemon.%d.err" % k[0]))
     try:
         for rd in rounds:
-            hostile = any(kd == "hostile" for s in rd["scens"] for kd in s["kinds"])
+            hostile = any(kd == "hostile" for s in rd.get("scens", []) for kd in s["kinds"])
             dm = new_daemon(True) if hostile else (shared or new_daemon(False))
             if not hostile:
                 shared = dm
             try:
                 rng = random.Random(rd["seed"])
-                groups = [L.concretize(bench, s, rng, 1 + 3 * j, hostile_variant=rd.get("hostile_variant"), cli_share=cli_share,
-                                       big=rd.get("big", False))
-                          for j, s in enumerate(rd["scens"])]
+                if rd.get("sweep"):
+                    groups = [[cl for cl in L.sweep_clients(bench, rng) if cl["template"] != L.BIG]]
+                else:
+                    groups = [L.concretize(bench, s, rng, 1 + 3 * j, hostile_variant=rd.get("hostile_variant"), cli_share=cli_share,
+                                           big=rd.get("big", False))
+                              for j, s in enumerate(rd["scens"])]
                 flat, obs = L.play_round(bench, dm, groups, rng, work)
                 for cl in flat:
                     e = mod_entry(cl)
